@@ -369,11 +369,255 @@ def docx_contracts():
     return [process, omml, para, table, body]
 
 
+
+# =====================================================================================
+# (c) slide / document assembly  --  data_types.py
+#
+# Statement: slide text = title, body items, other items (pptx: base text, then every formula between its
+# documented delimiters, then -- only when asked for -- image captions), in this order, separated by
+# whitespace; speaker notes / comments / footers are not part of it; nothing else is added.
+# =====================================================================================
+DT = "sharepoint2text/parsing/extractors/data_types.py"
+FORMULA, IMAGE = ext_sort("PptxFormula"), ext_sort("PptxImage")
+F_AT = z3.Function("slide.formulas.at", I, FORMULA)
+F_LATEX = z3.Function("PptxFormula.latex", FORMULA, S)
+F_DISPLAY = z3.Function("PptxFormula.is_display", FORMULA, B)
+IM_AT = z3.Function("slide.images.at", I, IMAGE)
+IM_DESC = z3.Function("PptxImage.description", IMAGE, S)
+FN_N = z3.Function("slide_formulas_nw", I, S)
+FN_S = z3.Function("slide_formulas_sq", I, S)
+IN_N = z3.Function("slide_captions_nw", I, S)
+IN_S = z3.Function("slide_captions_sq", I, S)
+
+
+def formula_text(f):
+    return z3.If(F_DISPLAY(f), cc("$$", F_LATEX(f), "$$"), cc("$", F_LATEX(f), "$"))
+
+
+def caption_text(im):
+    return cc("[Image: ", IM_DESC(im), "]")
+
+
+def _fold(F, item):
+    def d(k):
+        k1 = z3.simplify(k - 1)
+        return [F(k) == z3.If(k <= 0, lit(""), cc(F(z3.simplify(k - 1)), item(k1)))]
+    return d
+
+
+define(FN_N, _fold(FN_N, lambda k: NW(formula_text(F_AT(k)))))
+define(FN_S, _fold(FN_S, lambda k: cc(" ", SQ(formula_text(F_AT(k))))))
+define(IN_N, _fold(IN_N, lambda k: z3.If(IM_DESC(IM_AT(k)) == lit(""), lit(""), NW(caption_text(IM_AT(k))))))
+define(IN_S, _fold(IN_S, lambda k: z3.If(IM_DESC(IM_AT(k)) == lit(""), lit(""), cc(" ", SQ(caption_text(IM_AT(k)))))))
+
+
+def p_objseq(sort, at):
+    def mk(ex, st, name):
+        n = z3.Int(f"{name}.len")
+        st.assume(n >= 0)
+        return VSeq(n, lambda i: VExt(sort, at(i)), sort)
+    return Maker(mk, desc=f"list[{sort}] of symbolic length")
+
+
+def sep_claim(result_sq, spec_lead):
+    """result == pieces separated by whitespace, pieces given in leading-blank normal form."""
+    return z3.Or(z3.And(spec_lead == lit(""), result_sq == lit("")), cc(" ", result_sq) == spec_lead)
+
+
+def lead_str(x):
+    return z3.If(x == lit(""), lit(""), cc(" ", SQ(x)))
+
+
+def dt_contracts(reg):
+    reg.attr_models[("PptxFormula", "latex")] = lambda ex, st, o: VStr(F_LATEX(o.t))
+    reg.attr_models[("PptxFormula", "is_display")] = lambda ex, st, o: VBool(F_DISPLAY(o.t))
+    reg.attr_models[("PptxImage", "description")] = lambda ex, st, o: VStr(IM_DESC(o.t))
+    out = []
+
+    # ---- PptSlideContent / OdpSlide .text_combined -------------------------------------------
+    for cls, title in (("PptSlideContent", p_opt(p_str())), ("OdpSlide", p_str())):
+        def fields(c):
+            d = c.entry.obj(c.args["self"].ref).data
+            t = d["title"]
+            tt = lit("") if isinstance(t, VNoneT) else t.t
+            return tt, d["body_text"], d["other_text"]
+
+        def nw_post(c):
+            tt, b, o = fields(c)
+            return NW(c.result.t) == cc(NW(tt), NW(cat_of(c.entry, b)), NW(cat_of(c.entry, o)))
+
+        def sq_post(c):
+            tt, b, o = fields(c)
+            return sep_claim(SQ(c.result.t), cc(lead_str(tt), lead_of(c.entry, b), lead_of(c.entry, o)))
+
+        out.append(FnContract(
+            target=f"{DT}::{cls}.text_combined",
+            params=[("self", p_obj(cls, {"title": title, "body_text": p_strlist(), "other_text": p_strlist(), "notes": p_strlist()}))],
+            ensures=[("nw(result)==title+body+other", nw_post), ("sq(result)==title,body,other-separated-by-whitespace", sq_post)],
+            note="speaker notes (self.notes) do not occur in the specified text, hence never in the result",
+        ))
+
+    # ---- PptxSlide.get_text ------------------------------------------------------------------
+    def base(c_or_lc, st):
+        return st.obj(c_or_lc["self"].ref).data["base_text"].t
+
+    def f_inv(lc):
+        b = base(lc, lc.st)
+        return Conj([("nw", NW(cat_of(lc.st, lc["parts"])) == cc(NW(b), FN_N(lc.i))),
+                     ("sq", lead_of(lc.st, lc["parts"]) == cc(lead_str(b), FN_S(lc.i)))])
+
+    def i_inv(lc):
+        b = base(lc, lc.st)
+        nf = z3.Int("self.formulas.len")
+        return Conj([("nw", NW(cat_of(lc.st, lc["parts"])) == cc(NW(b), FN_N(nf), IN_N(lc.i))),
+                     ("sq", lead_of(lc.st, lc["parts"]) == cc(lead_str(b), FN_S(nf), IN_S(lc.i)))])
+
+    def gt_nw(c):
+        b, nf, ni, inc = base(c.args, c.entry), z3.Int("self.formulas.len"), z3.Int("self.images.len"), c.args["include_image_captions"].t
+        return NW(c.result.t) == cc(NW(b), FN_N(nf), z3.If(inc, IN_N(ni), lit("")))
+
+    def gt_sq(c):
+        b, nf, ni, inc = base(c.args, c.entry), z3.Int("self.formulas.len"), z3.Int("self.images.len"), c.args["include_image_captions"].t
+        return sep_claim(SQ(c.result.t), cc(lead_str(b), FN_S(nf), z3.If(inc, IN_S(ni), lit(""))))
+
+    out.append(FnContract(
+        target=f"{DT}::PptxSlide.get_text",
+        params=[("self", p_obj("PptxSlide", {"base_text": p_str(), "formulas": p_objseq("PptxFormula", F_AT), "images": p_objseq("PptxImage", IM_AT),
+                                             "footer": p_str(), "text": p_str()})),
+                ("include_image_captions", Maker(lambda ex, st, name: VBool(z3.Bool(name)), desc="bool", default=lambda ex, st: VBool(False)))],
+        ensures=[("nw(result)==base+formulas(+captions)", gt_nw), ("sq(result)==base,formulas(,captions)-separated-by-whitespace", gt_sq)],
+        loops={0: LoopSpec(inv=f_inv, label="formulas"), 1: LoopSpec(inv=i_inv, label="images")},
+        note="comments, footer and the comment-bearing field `text` do not occur in the specified text",
+    ))
+
+    # ---- DocContent.get_full_text: the documented title line ------------------------------------
+    UNITS = z3.Const("doc.joined_unit_text", S)
+    out.append(FnContract(target=f"{DT}::_join_unit_text", params=[("units", Maker(lambda ex, st, n: VUnk(n), desc="iterator"))], assumed=True,
+                          returns=lambda c: VStr(UNITS), note="C03 decides what the joined unit text is"))
+    out.append(FnContract(target=f"{DT}::DocContent.iterate_units", params=[("self", Maker(lambda ex, st, n: VUnk(n), desc="DocContent"))], assumed=True,
+                          returns=lambda c: VUnk("units"), note="C03"))
+
+    def doc_title(c):
+        return c.entry.obj(c.entry.obj(c.args["self"].ref).data["metadata"].ref).data["title"].t
+
+    out.append(FnContract(
+        target=f"{DT}::DocContent.get_full_text",
+        params=[("self", p_obj("DocContent", {"metadata": p_obj("DocMetadata", {"title": p_str()})}))],
+        ensures=[("nw(result)==title+units", lambda c: NW(c.result.t) == cc(NW(doc_title(c)), NW(UNITS))),
+                 ("sq(result)==title-line,units", lambda c: T.trim(SQ(c.result.t)) == T.trim(X.SQ_cat(SQ(doc_title(c)), lit(" "), SQ(UNITS))))],
+        note="the .doc title line is documented decoration: the result is the title, a line break, the unit text",
+    ))
+    return out
+
+
+# =====================================================================================
+# (d') HTML tree walk  --  html_extractor.py::_HtmlTextExtractor
+#
+# Tree = the dict tree built by _HtmlTreeBuilder (C17 proves that no node of a removed tag is ever added).
+#   node_text(n)   = text(n) ++ (node_text(c_i) ++ tail(c_i))_i                       (exact)
+#   rendered(n)    = documented rendering, observed through nw:
+#        table -> the formatted table;  li -> "- " content;  h1..h6 -> node_text;  br -> line break;  hr -> "---";
+#        other -> text ++ rendered children (each followed by its tail)
+# =====================================================================================
+HTML = "sharepoint2text/parsing/extractors/html_extractor.py"
+HNODE, H_TAG, H_TEXT, H_TAIL, H_NCH, H_CH = X.HNODE, X.H_TAG, X.H_TEXT, X.H_TAIL, X.H_NCH, X.H_CH
+HT = z3.Function("html_node_text", HNODE, S)
+HT_KIDS = z3.Function("html_node_text_children", HNODE, I, S)
+PN = z3.Function("html_rendered_nw", HNODE, S)
+PN_KIDS = z3.Function("html_rendered_children_nw", HNODE, I, S)
+TABLE_DATA = ext_sort("HtmlTableData")
+TD_OF = z3.Function("html_extract_table", HNODE, TABLE_DATA)
+TD_TEXT = z3.Function("html_format_table_as_text", TABLE_DATA, S)
+H_REMOVE = ["script", "style", "noscript", "iframe", "object", "embed", "applet"]
+H_HEADINGS = ["h1", "h2", "h3", "h4", "h5", "h6"]
+
+
+def tag_in(t, names):
+    return z3.Or([t == lit(k) for k in names])
+
+
+define(HT, lambda n: [HT(n) == cc(H_TEXT(n), HT_KIDS(n, H_NCH(n))), H_NCH(n) >= 0])
+define(HT_KIDS, lambda n, k: [HT_KIDS(n, k) == z3.If(k <= 0, lit(""), cc(HT_KIDS(n, z3.simplify(k - 1)), HT(H_CH(n, z3.simplify(k - 1))),
+                                                                          H_TAIL(H_CH(n, z3.simplify(k - 1)))))])
+
+
+def _pn_def(n):
+    t = H_TAG(n)
+    kids = PN_KIDS(n, H_NCH(n))
+    body = z3.If(t == lit("table"), NW(TD_TEXT(TD_OF(n))),
+           z3.If(t == lit("li"), cc("-", NW(H_TEXT(n)), kids),
+           z3.If(tag_in(t, H_HEADINGS), NW(HT(n)),
+           z3.If(t == lit("br"), lit(""),
+           z3.If(t == lit("hr"), lit("---"), cc(NW(H_TEXT(n)), kids))))))
+    return [PN(n) == body, H_NCH(n) >= 0]
+
+
+def _pn_kids_def(n, k):
+    k1 = z3.simplify(k - 1)
+    c = H_CH(n, k1)
+    return [PN_KIDS(n, k) == z3.If(k <= 0, lit(""), cc(PN_KIDS(n, k1), PN(c), NW(H_TAIL(c))))]
+
+
+# class invariant of the tree the builder makes (C17: no node of a removed tag is ever added), instantiated at every child term
+define(H_CH, lambda n, k: [z3.Implies(z3.And(k >= 0, k < H_NCH(n)), z3.Not(tag_in(H_TAG(H_CH(n, k)), H_REMOVE)))])
+define(PN, _pn_def)
+define(PN_KIDS, _pn_kids_def)
+
+
+def html_contracts(reg):
+    reg.module_consts[(HTML, "_RE_WS")] = VExt("RegexWS")
+    p_self = p_obj("_HtmlTextExtractor", {})
+    p_flag = lambda dflt: Maker(lambda ex, st, name: VBool(z3.Bool(name)), desc="bool", default=lambda ex, st: VBool(dflt))
+
+    def gnt_inv(lc):
+        n = lc["node"].t
+        # `if node.get("text")` : an empty text contributes nothing either way
+        return Conj([("parts==text+texts-of-processed-children", cat_of(lc.st, lc["parts"]) == cc(H_TEXT(n), HT_KIDS(n, lc.i)))])
+
+    gnt = FnContract(
+        target=f"{HTML}::_HtmlTextExtractor._get_node_text",
+        params=[("self", p_self), ("node", p_hnode()), ("include_children", p_flag(True)), ("include_tail", p_flag(False))],
+        returns=lambda c: VStr(cc(z3.If(c.args["include_children"].t, HT(c.args["node"].t), H_TEXT(c.args["node"].t)),
+                                  z3.If(c.args["include_tail"].t, H_TAIL(c.args["node"].t), lit("")))),
+        loops={0: LoopSpec(inv=gnt_inv, label="children")},
+    )
+    extract_table = FnContract(target=f"{HTML}::_HtmlTextExtractor._extract_table", params=[("self", p_self), ("table_node", p_hnode())],
+                               assumed=True, returns=lambda c: VExt("HtmlTableData", TD_OF(c.args["table_node"].t)),
+                               note="table content: BOUNDED check html.extract (replay/C02.py)")
+    format_table = FnContract(target=f"{HTML}::_HtmlTextExtractor._format_table_as_text",
+                              params=[("self", p_self), ("table_data", Maker(lambda ex, st, n: VExt("HtmlTableData"), desc="table data"))],
+                              assumed=True, returns=lambda c: VStr(TD_TEXT(c.args["table_data"].t)), note="BOUNDED check html.extract")
+
+    def pn_inv(var):
+        def inv(lc):
+            n = lc["node"].t
+            return Conj([("nw", NW(cat_of(lc.st, lc[var])) == cc(NW(H_TEXT(n)), PN_KIDS(n, lc.i)))])
+        return inv
+
+    pn = FnContract(
+        target=f"{HTML}::_HtmlTextExtractor._process_node",
+        params=[("self", p_obj("_HtmlTextExtractor", {"tables": Maker(lambda ex, st, n: VUnk(n), desc="list")})), ("node", p_hnode()),
+                ("depth", Maker(lambda ex, st, name: VInt(z3.Int(name)), desc="int", default=lambda ex, st: VInt(0))),
+                ("include_tail", p_flag(False))],
+        requires=lambda c: z3.Not(tag_in(H_TAG(c.args["node"].t), H_REMOVE)),
+        ensures=[("nw(result)==rendered(node)(+tail)",
+                  lambda c: NW(c.result.t) == cc(PN(c.args["node"].t), z3.If(c.args["include_tail"].t, NW(H_TAIL(c.args["node"].t)), lit(""))))],
+        result_maker=lambda ex, st, ctx: VStr(z3.String(fresh_name("rendered"))),
+        raises=[Raises("Exception", sub=True)],
+        modifies=("self",),
+        loops={0: LoopSpec(inv=pn_inv("text_parts"), label="li-children"), 1: LoopSpec(inv=pn_inv("result_parts"), label="children")},
+        note="requires: the node is not of a removed tag (class invariant of the tree the builder makes, C17)",
+    )
+    return [gnt, extract_table, format_table, pn]
+
+
 def contracts(reg):
     X.install(reg)
     out = []
     out += odf_contracts()
     out += docx_contracts()
+    out += dt_contracts(reg)
+    out += html_contracts(reg)
     return out
 
 
